@@ -150,6 +150,20 @@ class Observer:
             self.hist["server_error"] = True
         if line == "welcome 1" and not self._was_closing:
             self.hist["welcome_error"] = True
+        # the first thing after which the wormhole is closing decides the verdict it must report
+        if closing and not self._was_closing and "cause" not in self.hist:
+            if line == "welcome 1":
+                self.hist["cause"] = "WelcomeError"
+            elif line == "error":
+                self.hist["cause"] = "ServerError"
+            elif line.startswith("msg theirs"):
+                self.hist["cause"] = "WrongPasswordError"
+            elif line == "close":
+                self.hist["cause"] = "happy" if self.hist["good"] and not self.hist["bad"] else "LonelyError"
+            elif line == "failinitial":
+                self.hist["cause"] = "ServerConnectionError"
+            else:
+                self.hist["cause"] = "?" + line
         self._was_closing = closing
         if self.at_closed is None and any(n == "closed" for n, v in c.events):
             self.at_closed = dict(server=self.W.server_facts(), connected=c.conn is not None,
@@ -165,6 +179,8 @@ class Observer:
         """execute a world op; if it concerns the observed client, record a model line"""
         W, c, ci = self.W, self.c, self.ci
         k = op[0]
+        if k == "server_welcome_error":
+            return W.server_welcome_error(op[1])
         if k != "settle" and len(op) > 1 and op[1] != ci:
             return W.do(op)
         n_int = len(c.internal)
@@ -201,8 +217,21 @@ class Observer:
             if c.conn is None or not c.conn.s2c or (c.svc.stopping is not None and not c.svc.stopping.called):
                 return "noop"
             line = self.classify_frame(c.conn.s2c[0])
+            had_key = c.boss._R._key is not None
+            stash = list(self._stash)
             r = W.s2c(ci)
             if line is not None:
+                if line.startswith("msg theirs 70616b65 ") and not had_key and c.boss._R._key is not None and stash:
+                    # whether the messages queued in Order open under the key this PAKE produced
+                    ok = True
+                    for (sd, ph, body) in stash:
+                        try:
+                            decrypt_data(derive_phase_key(c.boss._R._key, sd, ph), body)
+                        except CryptoError:
+                            ok = False
+                    parts = line.split(" ")
+                    parts[3] = "1" if ok else "0"
+                    line = " ".join(parts)
                 self.record(line, self._outcome(r, n_int))
             return r
         if k in ("open", "drop", "svc_stopped", "fail_initial"):
@@ -297,7 +326,7 @@ def patch_world_internal_names(world):
 # guided random schedules
 
 PROFILES = ["set", "allocate", "input", "set-mismatch", "lonely", "welcome-error", "crowded", "fail-initial",
-            "late-peer", "drops"]
+            "late-peer", "drops", "welcome-error-later"]
 
 
 def summarize(W, ob):
@@ -426,6 +455,13 @@ def guided(seed, n_ops, profile, welcome_error=None, finish_run=False):
                     choices += [["api", p, "close"]]
             if not choices:
                 break
+            if profile == "welcome-error-later" and not st.get("unwelcomed") and len(ops) > n_ops * 0.3 and rng.random() < 0.15:
+                # the relay is reconfigured to refuse clients; only connections made from now on see it
+                emit(["server_welcome_error", "please upgrade"])
+                st["unwelcomed"] = True
+                if c0.conn is not None:
+                    emit(["drop", 0])
+                continue
             op = rng.choice(choices)
             r = emit(op)
             if op[0] == "api":
